@@ -582,14 +582,37 @@ func (c *Ctx) checkHeadersBehindGates() {
 	}}
 	n := 0
 	for _, sfn := range c.funcsCalling(headers, "server") {
-		fn := c.climbUntil(sfn, isHTTPHandler)
-		if !isHTTPHandler(fn) {
+		// the HTTP handlers on whose behalf the call is made: the function itself, or the handlers
+		// that (directly or through one more helper) call the helper it sits in
+		var handlers []*ssa.Function
+		seenH := map[*ssa.Function]bool{}
+		var up func(f *ssa.Function, d int)
+		up = func(f *ssa.Function, d int) {
+			if isHTTPHandler(f) {
+				if !seenH[f] {
+					seenH[f] = true
+					handlers = append(handlers, f)
+				}
+				return
+			}
+			if d >= 2 {
+				return
+			}
+			for _, cs := range c.callersOf(f) {
+				up(cs.Caller, d+1)
+			}
+		}
+		up(sfn, 0)
+		if len(handlers) == 0 {
 			continue
 		}
+		fn := handlers[0]
 		r.Func(fk(fn))
 		var gErr []core.Guard
-		for _, a := range c.regionCallsTo(fn, authReq) {
-			gErr = append(gErr, core.NilGuard("auth err==nil", errResultOf(a, 2), true))
+		for _, h := range handlers {
+			for _, a := range c.regionCallsTo(h, authReq) {
+				gErr = append(gErr, core.NilGuard("auth err==nil", errResultOf(a, 2), true))
+			}
 		}
 		gKey := core.BoolGuard("checkAPIKey valid", func(v ssa.Value) bool {
 			ex, ok := v.(*ssa.Extract)
@@ -612,7 +635,7 @@ func (c *Ctx) checkHeadersBehindGates() {
 				fmt.Sprintf("the media handler's headers (for a redirecting back-end: a pre-signed link to the file) are produced before the request was accepted (api key=%v credentials=%v user=%v)", ok1, ok2, ok3))
 		}
 	}
-	r.Check(n >= 2, "C16.1c-headers-behind-gates", "calls of Handler.Headers in the HTTP handlers", "-", fmt.Sprintf("%d", n), "fewer than two: anchor lost")
+	r.Check(n >= 1, "C16.1c-headers-behind-gates", "calls of Handler.Headers in the HTTP handlers", "-", fmt.Sprintf("%d", n), "none: anchor lost")
 }
 
 // retOrdinalOfCall numbers the calls of one callee inside a function in source order.
@@ -1022,6 +1045,32 @@ func (c *Ctx) checkCollectorChannel() {
 			n++
 			r.Func(fk(fn))
 			v := core.Strip(st.Val)
+			// handed down through a parameter of a helper with a single call site, or captured
+			for i := 0; i < 3; i++ {
+				if ld, ok := v.(*ssa.UnOp); ok && ld.Op == token.MUL {
+					if fv, ok := ld.X.(*ssa.FreeVar); ok {
+						if b, ok := core.FreeVarBinding(fv).(*ssa.Alloc); ok {
+							if sv := c.soleStoreTo(b); sv != nil {
+								v = core.Strip(sv)
+								continue
+							}
+						}
+					}
+				}
+				if fv, ok := v.(*ssa.FreeVar); ok {
+					if b := core.FreeVarBinding(fv); b != nil {
+						v = core.Strip(b)
+						continue
+					}
+				}
+				if _, isP := v.(*ssa.Parameter); isP {
+					if w := c.rootValue(v); w != v {
+						v = w
+						continue
+					}
+				}
+				break
+			}
 			_, isMake := v.(*ssa.MakeChan)
 			if ct, ok := v.(*ssa.ChangeType); ok {
 				_, isMake = core.Strip(ct.X).(*ssa.MakeChan)
@@ -1058,4 +1107,23 @@ func (c *Ctx) checkCollectorChannel() {
 		}
 	}
 	r.Check(n >= 2, "C14.6b-collector-channel", "shutDown literals with a completion channel", "-", fmt.Sprintf("%d", n), "fewer than two: anchor lost")
+}
+
+// soleStoreTo: the value of the only store into a local variable (nil otherwise).
+func (c *Ctx) soleStoreTo(a *ssa.Alloc) ssa.Value {
+	if a.Referrers() == nil {
+		return nil
+	}
+	var v ssa.Value
+	n := 0
+	for _, r := range *a.Referrers() {
+		if st, ok := r.(*ssa.Store); ok && st.Addr == ssa.Value(a) {
+			v = st.Val
+			n++
+		}
+	}
+	if n != 1 {
+		return nil
+	}
+	return v
 }
